@@ -15,8 +15,15 @@ import (
 
 // Scenarios returns the workload/configuration alphabet of a tier.
 func Scenarios(thorough bool) []sched.Scenario {
+	initGlobals() // scans the error-text menu (ErrTexts) from the tree under test
 	var out []sched.Scenario
 	add := func(c Cfg) { out = append(out, &Scenario{C: c}) }
+	// the text of a database failure is part of the fault: one small scenario per text of the menu and retry setting
+	for k := 1; k < len(ErrTexts); k++ {
+		for _, retry := range []int{1, 2} {
+			add(Cfg{Kind: "loki", Parallel: 1, MaxQueue: 0, Retry: retry, Reqs: 1, Chunks: 1, Rows: 1, ErrKind: k})
+		}
+	}
 	for _, kind := range []string{"loki", "tempo"} {
 		// one request: every retry / chunking / trigger combination
 		for _, retry := range []int{1, 2} {
